@@ -2745,7 +2745,7 @@ func (c *RegionCache) batchScanRegionsFallback(bo *retry.Backoffer, keyRanges []
 				// end_key is empty means the last region is the last region of the store, which certainly contains all the rest ranges.
 				break
 			}
-			if bytes.Compare(endKey, keyRange.EndKey) >= 0 {
+			if len(keyRange.EndKey) != 0 && bytes.Compare(endKey, keyRange.EndKey) >= 0 {
 				continue
 			}
 			if bytes.Compare(endKey, keyRange.StartKey) > 0 {
